@@ -137,13 +137,21 @@ RemovedCases(T, P) ==
   IF T \in Plain THEN {{}}
   ELSE LET onwire == {f \in Settable(T) : f \in P \/ Entry(T, f).kind = "def"} IN {{}, onwire} \cup {{f} : f \in onwire}
 
-Cases == UNION {UNION {{[t |-> "pl", ty |-> T, present |-> P, dfl |-> D, removed |-> R, foreign |-> F, le |-> e] :
-                           R \in RemovedCases(T, P), F \in (IF T \in Plain THEN {<<>>} ELSE ForeignCases), e \in BOOLEAN,
-                           D \in DflCases(T, P)}
-                        : P \in PresenceCases(T)} : T \in Types}
+\* Another value shape the codec must be blind to: strings (entity, topic and type names, content filter expressions
+\* and parameters, ...) are CDR strings counted in OCTETS; `wide` cases give every string characters of 2, 3 and 4
+\* octets, so that a count taken in characters comes out short.  (Types without a string are not doubled.)
+HasString == {"spdp", "drd", "dwd", "dtd"}
+WideCases(T) == IF T \in HasString THEN BOOLEAN ELSE {FALSE}
+
+Case(T, P, R, F, e, D, w) == [t |-> "pl", ty |-> T, present |-> P, dfl |-> D, removed |-> R, foreign |-> F, le |-> e, wide |-> w]
 
 Init == cs = [t |-> "none"]
-Next == cs.t = "none" /\ cs' \in Cases
+\* (nested quantifiers rather than one set of all cases: TLC would build and normalise that set first)
+Next == /\ cs.t = "none"
+        /\ \E T \in Types : \E P \in PresenceCases(T) :
+             \E R \in RemovedCases(T, P), F \in (IF T \in Plain THEN {<<>>} ELSE ForeignCases), e \in BOOLEAN,
+                D \in DflCases(T, P), w \in WideCases(T) :
+               cs' = Case(T, P, R, F, e, D, w)
 Spec == Init /\ [][Next]_cs
 
 Law == cs.t = "pl" =>
